@@ -23,8 +23,9 @@ IsEvent(e) == l <= Len(Rec) /\ Rec[l].ev = e /\ l' = l + 1
 E == Rec[l]
 
 NoCfg == [cap |-> Unb, strat |-> "restart", stream |-> FALSE, tmo |-> 0, failto |-> FALSE, owning |-> FALSE,
-          sscr |-> <<>>, pscr |-> <<>>, fscr |-> <<>>]
+          sscr |-> <<>>, pscr |-> <<>>, fscr |-> <<>>, ty |-> "0"]
 OpOf(r) == [op |-> r.op, h |-> r.h, nh |-> r.nh, a |-> r.a, scr |-> r.scr, d |-> r.d, to |-> r.to,
+            ty |-> r.ty, nh2 |-> r.nh2,
             cfg |-> IF "cfg" \in DOMAIN r THEN r.cfg ELSE NoCfg]
 
 CanStep(t) == TaskCanStepW(t, FALSE)
@@ -94,7 +95,7 @@ T_OpBegin == /\ IsEvent("op_begin")
 
 LastMatches(op, L) == /\ G("oe.res." \o op, L.res = E.res)
                       /\ G("oe.val." \o op, L.res \notin {"ok", "some"} \/ (L.pos = E.pos /\ L.inst = E.inst))
-                      /\ G("oe.actor", L.a = E.a)
+                      /\ G("oe.actor." \o op, E.a = "*" \/ L.a = E.a)
 T_OpEnd == /\ IsEvent("op_end")
            /\ LET c == E.task IN
               /\ G("oe.cur", cur = c /\ ~yl)
@@ -174,10 +175,19 @@ T_TimerFire == /\ IsEvent("timer_fire")
                   /\ G("tf.k", tmr[i].k + 1 = E.k)
                   /\ TimerFire(i) /\ UNCHANGED <<cur, yl>>
 
+\* a Default value is constructed: recreate-from-default during a restart, or the registry spawning a service
 T_DefaultNew == /\ IsEvent("default_new")
-                /\ G("dn.recreate", E.task \in Actor /\ act[E.task].pc = "rs_mid" /\ act[E.task].strat = "recreate")
                 /\ G("dn.inst", E.inst = hst.ninst + 1)
-                /\ UNCHANGED vars
+                /\ IF E.task \in Actor
+                   THEN /\ G("dn.recreate", act[E.task].pc = "rs_mid" /\ act[E.task].strat = "recreate")
+                        /\ UNCHANGED vars
+                   ELSE LET c == E.task IN
+                        /\ G("dn.cur", cur = c /\ ~yl /\ cli[c].stage = "reglock" /\ cli[c].op \in {"from_registry", "setup"})
+                        /\ G("dn.lock", RegLockFree(c))
+                        /\ G("dn.type", cli[c].arg.ty = E.ty)
+                        \* the registry spawns only when no live instance is registered
+                        /\ G("dn.miss", ~(E.ty \in DOMAIN reg.ent /\ SvcRunning(reg.ent[E.ty])))
+                        /\ RunCont(c)
 
 Alive == {a \in Actor : act[a].pc \notin {"unborn", "done", "failed"}} \cup {i \in DOMAIN tmr : tmr[i].st \notin {"ended"}}
 SeqSet(s) == {s[i] : i \in 1..Len(s)}
